@@ -99,9 +99,10 @@ pub fn parse_v1_mime_response(
                 Some(sig_info)
             }
             Err(e) => {
+                // A signature part that cannot be parsed is an error, as documented: it
+                // must not look like a response that was never signed
                 warn!("Signature parsing/verification failed: {}", e);
-                // Continue without signature info rather than failing completely
-                None
+                return Err(e);
             }
         }
     } else {
